@@ -172,7 +172,8 @@ std::size_t session_t::read_data(const string& master_account)
     parsing_context.get_current().journal = journal.get();
     parsing_context.get_current().master  = acct;
     try {
-      xact_count += journal->read(parsing_context, HANDLER(hashes_).hash_type);
+      xact_count += journal->read(parsing_context, HANDLER(hashes_).hash_type,
+                                  false);
     }
     catch (const error_count& errors) {
       // keep reading the remaining files, so that their invalid items are
@@ -182,10 +183,13 @@ std::size_t session_t::read_data(const string& master_account)
     }
     catch (...) {
       parsing_context.pop();
+      journal->clear_xdata();
       throw;
     }
     parsing_context.pop();
   }
+
+  journal->clear_xdata();
 
   if (error_total > 0)
     throw error_count(error_total, error_message);
